@@ -118,6 +118,13 @@ func init() {
 			at := t.Intn(len(steps))
 			steps = append(steps[:at], append([]Step{{Op: "rotate_global", V: "short", P: map[string]string{"new": "too-short-secret"}}}, steps[at:]...)...)
 		}
+		if t.Chance(14) {
+			// unusual secret configurations: current secret unset, unset entries in the rotated list, no usable secret at all
+			at := t.Intn(len(steps))
+			v := t.Pick([]string{"unset", "empty_rotated", "empty_rotated", "only_empty", "only_empty"})
+			ins := Step{Op: "rotate_global", V: v, P: map[string]string{"pos": t.Pick([]string{"front", "back"}), "n": t.Pick([]string{"1", "2"})}}
+			steps = append(steps[:at], append([]Step{ins}, steps[at:]...)...)
+		}
 		return &Plan{Profile: "c06", Prop: "C06", K: k, Steps: steps}
 	}})
 	regProp(&PropSpec{ID: "C06", Profiles: []string{"c06"}, Characteristic: []string{"mutated:", "rotate-global", "entropy-fault"}})
